@@ -150,6 +150,10 @@ func targets(full bool) []*target {
 		if full || di%3 == seed%3 {
 			add("envelope", "kmskeyset", d.Name, simple("AESGCM", 32, "TINK", pick(n)))
 		}
+		if full || di%3 == (seed+1)%3 { // the envelope key itself carries an output prefix (legacy adapter of the factory)
+			add("envelope", "kmskeyset", d.Name, simple("AESGCM", 16, "CRUNCHY", pick(n)))
+			ts[len(ts)-1].Env = keyCfg{Variant: []string{"TINK", "CRUNCHY", "LEGACY"}[di%3], ID: pick(n + 1)}
+		}
 	}
 	return ts
 }
@@ -255,7 +259,7 @@ func (q sealReq) j(t *target) map[string]any {
 	for _, k := range order {
 		keys = append(keys, k.j())
 	}
-	m := map[string]any{"n": q.N, "mode": t.Mode, "keys": keys, "dek": "", "nonce": vt.Hex(q.Nonce), "pt": vt.Hex(q.Pt),
+	m := map[string]any{"n": q.N, "mode": t.Mode, "keys": keys, "dek": "", "ep": vt.Hex(t.envPrefix()), "nonce": vt.Hex(q.Nonce), "pt": vt.Hex(q.Pt),
 		"ad": vt.Hex(q.Ad), "dekBytes": vt.Hex(q.DekBytes), "kekNonce": vt.Hex(q.KekNonce)}
 	if t.Mode == "envelope" {
 		m["dek"] = q.DekCfg.KT
@@ -294,6 +298,9 @@ func requests(ts []*target, full bool) []sealReq {
 				}
 				q := sealReq{N: len(qs), T: ti, Key: ki, Pt: content(r, n, li+ti), Muts: *prop == "C02" && (li == 0 || (full && li == 1 && core(t, ti)))}
 				q.Ad, _ = adOf(r, li+ti+1)
+				if *prop == "C01" && li == 3 && ki == 0 { // one specification-made ciphertext with long associated data
+					q.Ad = content(r, []int{256, 8192, 300, 8193}[ti%4], ti/4)
+				}
 				if t.Mode == "envelope" {
 					d := dekByName(t.DEK)
 					c := d.Cfg
@@ -508,6 +515,12 @@ func runC01(x *runner, t *target, ti int, mine []sealReq, sealed map[int][]byte)
 		}
 		ad, _ := adOf(x.r, li+ti)
 		x.encrypt(t, pt, ad)
+	}
+	// long associated data: lengths whose bit length crosses 2^8 bytes / 2^16 bits (length encodings)
+	bigAD := []int{256, 257, 511, 8191, 8192, 8193, 1000, 4096}
+	x.encrypt(t, content(x.r, 20, ti), content(x.r, bigAD[ti%len(bigAD)], ti/len(bigAD)))
+	if x.full {
+		x.encrypt(t, content(x.r, 33, ti), content(x.r, bigAD[(ti+3)%len(bigAD)], 0))
 	}
 	// spec -> Tink: ciphertexts made by the TLA+ reference with chosen nonces
 	for _, q := range mine {
